@@ -256,7 +256,7 @@ class PeriodicGrid(Grid):
                 "Arguments points and realvecs do not have the same number of columns. \n"
                 f"points.shape={points.shape} and realvecs.shape={realvecs.shape}"
             )
-        ncellvec = 1 if realvecs.ndim == 1 else realvecs.shape[0]
+        ncellvec = realvecs.size if realvecs.ndim == 1 else realvecs.shape[0]
         npointdim = 1 if points.ndim == 1 else points.shape[1]
         if ncellvec > npointdim:
             raise ValueError(
@@ -283,14 +283,16 @@ class PeriodicGrid(Grid):
         # the 3D case, these are the distances between two adjacent planes
         # with Miller indices {100}, {010} and {001}, respectively.
         if points.ndim == 1:
-            spacings = 1 / self._recivecs
+            # a spacing is a distance, also when the 1D lattice vector is negative
+            spacings = abs(1 / self._recivecs)
         else:
             spacings = 1 / np.linalg.norm(self._recivecs, axis=1)
         self._spacings = spacings
         # Compute the fractional coordinates, which are only used temporarily.
         # They are not stored as an attribute.
         if points.ndim == 1:
-            frac_points = points * recivecs
+            # (the reshape makes this work without lattice vectors: shape (N, 0))
+            frac_points = points.reshape(-1, 1) * recivecs.reshape(1, -1)
         else:
             frac_points = points @ recivecs.T
         # Wrap the points back into the primitive cell, in case this was asked.
@@ -299,14 +301,14 @@ class PeriodicGrid(Grid):
             frac_shift = -np.floor(frac_points)
             frac_points += frac_shift
             if points.ndim == 1:
-                points = points + frac_shift * realvecs
+                points = points + (frac_shift * realvecs).reshape(points.shape)
             else:
                 points = points + frac_shift @ realvecs
         # Compute the minimal and maximal values of the fractional coordinates.
         # These are the intervals spanned by the fractional coordinates along
         # each lattice vector: ``frac_intvls``.
-        if points.ndim == 1:
-            frac_intvls = np.array([[frac_points.min(), frac_points.max()]])
+        if frac_points.shape[1] == 0:
+            frac_intvls = np.zeros((0, 2))
         else:
             frac_intvls = np.array([frac_points.min(axis=0), frac_points.max(axis=0)]).T
         self._frac_intvls = frac_intvls
@@ -357,7 +359,7 @@ class PeriodicGrid(Grid):
         PeriodicGrid
             A new PeriodicGrid object with selected points.
         """
-        if isinstance(index, int):
+        if isinstance(index, (int, np.integer)):
             return self.__class__(
                 np.array([self.points[index]]),
                 np.array([self.weights[index]]),
@@ -423,7 +425,8 @@ class PeriodicGrid(Grid):
         ilc_max = np.floor(self._frac_intvls[:, 1] - frac_center + radius / self._spacings).astype(
             int
         )
-        assert (ilc_min <= ilc_max).all()
+        # (ilc_min > ilc_max means that no periodic image can be inside the sphere:
+        # the ranges below are then empty and an empty local grid is returned.)
 
         # C) Loop over all possible translations of the center
         # ----------------------------------------------------
@@ -447,7 +450,9 @@ class PeriodicGrid(Grid):
             _displaced_center = (
                 np.array([displaced_center]) if center.ndim == 0 else displaced_center
             )
-            indices = np.array(self._kdtree.query_ball_point(_displaced_center, radius, p=2.0))
+            indices = np.array(
+                self._kdtree.query_ball_point(_displaced_center, radius, p=2.0), dtype=int
+            )
             # The following line avoids some_array[indices] when indices == [].
             if len(indices) == 0:
                 continue
@@ -456,6 +461,10 @@ class PeriodicGrid(Grid):
             # Store points with the opposite displacement!!
             local_points.append(self._points[indices] - delta)
 
+        if len(local_indices) == 0:
+            # no periodic image inside the sphere: empty local grid
+            empty = np.zeros(0, dtype=int)
+            return LocalGrid(self._points[empty], self._weights[empty], center, empty)
         return LocalGrid(
             np.concatenate(local_points),
             np.concatenate(local_weights),
